@@ -16,7 +16,7 @@ from fractions import Fraction
 import z3
 
 from . import native, ode, proj
-from .irsym import DIVZERO_SEEN, INV, Dual, Inconclusive, R, inv_axioms, is_sym, reciprocal, val_of
+from .irsym import DIVZERO_SEEN, Dual, Inconclusive, R, inv_axioms, is_sym, reciprocal, val_of
 
 SOLVER_TIMEOUT_MS = 60_000
 
@@ -359,18 +359,18 @@ def _viol_compile(res, pr, tag, errs, p, tdir, modifier=False):
 
 
 # --------------------------------------------------------------------------- translator self-validation
-def eval_term(t, subs):
+def eval_term(t, env):
+    from .evalz3 import EvalError, evalf
+
     if t is None:
         return None
     t = val_of(t)
     if not is_sym(t):
         return float(Fraction(t))
-    v = z3.simplify(z3.substitute(R(t), *subs))
-    if z3.is_rational_value(v):
-        return float(Fraction(v.numerator_as_long(), v.denominator_as_long()))
-    if z3.is_algebraic_value(v):
-        return float(v.approx(20).as_fraction())
-    return None
+    try:
+        return evalf(R(t), env)
+    except EvalError:
+        return None
 
 
 def selfcheck(case, p, tdir, res, fex, J, kind, seed):
@@ -386,16 +386,14 @@ def selfcheck(case, p, tdir, res, fex, J, kind, seed):
         res["notes"].append(f"{case.name}/{tdir}: self-validation unavailable: {str(e)[:200]}")
         return
     kerg = out["aux"].get("kerg", 1.380658e-16)
-    subs = [(v, z3.RealVal(repr(x))) for v, x in zip(fex.y, pt["y"])]
-    subs += [(v, z3.RealVal(repr(x))) for v, x in zip(fex.k, pt["k"])]
-    subs += [(v, z3.RealVal(repr(x))) for v, x in zip(fex.kh, pt["kh"])]
-    subs += [(v, z3.RealVal(repr(x))) for v, x in zip(fex.kc, pt["kc"])]
-    subs += [(v, z3.RealVal(repr(pt["data"][nm]))) for nm, v in fex.data.items() if is_sym(v)]
-    known = {"GetNumDens": pt["npar"], "kerg": kerg, "GetMu": pt["mu"], "GetGamma": pt["gamma_opq"]}
-    for key, (b, iv) in INV.items():
-        if key in known and known[key] != 0:
-            subs.append((iv, z3.RealVal(str(1 / Fraction(known[key])))))
-    subs += [(z3.Real("GetNumDens"), z3.RealVal(repr(pt["npar"]))), (z3.Real("GetMu"), z3.RealVal(repr(pt["mu"]))), (z3.Real("GetGamma"), z3.RealVal(repr(pt["gamma_opq"]))), (z3.Real("kerg"), z3.RealVal(repr(kerg)))]
+    subs = {}
+    for vs, xs in ((fex.y, pt["y"]), (fex.k, pt["k"]), (fex.kh, pt["kh"]), (fex.kc, pt["kc"])):
+        for v, x in zip(vs, xs):
+            subs[str(v)] = x
+    for nm, v in fex.data.items():
+        if is_sym(v):
+            subs[str(v)] = pt["data"][nm]
+    subs.update({"GetNumDens": pt["npar"], "GetMu": pt["mu"], "GetGamma": pt["gamma_opq"], "kerg": kerg})
     nbad = ncmp = 0
     for i, t in enumerate(fex.ydot):
         sv = eval_term(t, subs)
